@@ -131,7 +131,7 @@ func main() {
 		units = append(units, unit{"fuzz", i})
 	}
 	scratch := c.Scratch()
-	timeout := time.Duration(c.Pick(150, 2400)) * time.Second
+	timeout := time.Duration(c.Pick(600, 3600)) * time.Second
 	var mu sync.Mutex
 	merge := func(res *childResult) {
 		c.Eval(res.Evals)
